@@ -687,6 +687,86 @@ func TestC14(t *testing.T) {
 			c.Event("channels_checked", 1)
 		})
 	})
+	// after CloseNotify has been requested, the transport delivers the traffic in reads of exactly
+	// 4 KiB, 8 KiB, ... (a pipelined backlog, messages above 4 KiB in one piece): requesting the
+	// channel never loses, duplicates or reorders inbound messages, and the channel stays open
+	// until the peer really goes away
+	rec.Suite("large-reads-after-closenotify", 7*2*rec.N(1, 20), func(c *ev.Case) {
+		frag := []int{4096, 8192, 16384, 32768, 65536, 5000, 12288}[c.I%7]
+		byHandler := (c.I/7)%2 == 0
+		c.Class("large-reads-after-closenotify/read=%d/requested-by-handler=%v", frag, byHandler)
+		run(c, "E", func() {
+			sig := func(op string) ev.Sig {
+				return ev.Sig{"op": op, "termination": "E", "variant": "large-reads-after-closenotify"}
+			}
+			var mu sync.Mutex
+			var seen []uint32
+			var ch <-chan struct{}
+			hf := diam.HandlerFunc(func(dc diam.Conn, m *diam.Message) {
+				mu.Lock()
+				seen = append(seen, m.Header.HopByHopID)
+				if byHandler && ch == nil {
+					ch = dc.(diam.CloseNotifier).CloseNotify()
+				}
+				mu.Unlock()
+			})
+			mc := memnet.NewConn()
+			conn, err := diam.NewConn(mc, "a", hf, ctx.Parser)
+			if err != nil {
+				c.Fail(sig("setup"), nil, nil, "NewConn: %v", err)
+				return
+			}
+			mc.Feed(seqMsg(1, 12))
+			synctest.Wait()
+			if !byHandler {
+				ch = conn.(diam.CloseNotifier).CloseNotify()
+				synctest.Wait()
+			}
+			var stream []byte
+			n := uint32(1)
+			for len(stream) < 4*frag+70000 {
+				n++
+				stream = append(stream, seqMsg(n, []int{1000, 100, 4096, 12, 9000}[n%5])...)
+			}
+			for off := 0; off < len(stream); off += frag {
+				mc.Feed(stream[off:min(off+frag, len(stream))])
+				if (off/frag)%3 == 2 {
+					synctest.Wait()
+				}
+			}
+			synctest.Wait()
+			mu.Lock()
+			got := append([]uint32(nil), seen...)
+			c0 := ch
+			mu.Unlock()
+			for i := range got {
+				if got[i] != uint32(i+1) {
+					c.Fail(sig("message-log"), nil, nil, "reads of %d bytes after CloseNotify was requested: message %d was followed by message %d (of %d sent, %d delivered)", frag, i, got[i], n, len(got))
+					return
+				}
+			}
+			select {
+			case <-c0:
+				c.Fail(sig("closed-before-termination"), nil, nil, "reads of %d bytes after CloseNotify was requested: the channel is closed while the peer is connected and sending valid messages (%d of %d delivered)", frag, len(got), n)
+				return
+			default:
+			}
+			if len(got) != int(n) || mc.CloseCount() != 0 {
+				c.Fail(sig("message-log"), nil, nil, "reads of %d bytes after CloseNotify was requested: %d of %d messages delivered, transport closed %d time(s)", frag, len(got), n, mc.CloseCount())
+				return
+			}
+			mc.FeedEOF()
+			synctest.Wait()
+			select {
+			case <-c0:
+			default:
+				c.Fail(sig("not-closed-after-termination"), nil, nil, "the channel is not closed at quiescence after EOF")
+				return
+			}
+			c.Event("large_read_runs", 1)
+			c.Event("channels_checked", 1)
+		})
+	})
 	// local Close while a Write of another goroutine is blocked in the transport (the peer has
 	// stopped reading): Close terminates the connection all the same
 	rec.Suite("local-close-while-write-blocked", 2*2*rec.N(2, 60), func(c *ev.Case) {
@@ -920,6 +1000,70 @@ func TestC14(t *testing.T) {
 			time.Sleep(2 * time.Millisecond)
 		}
 		c.Event("stress_rounds", rounds)
+	})
+	// undecodable input on eight connections of one ServeMux at the same moment (real scheduler),
+	// the application not reading ErrorReports: every CloseNotify channel is closed, every reader
+	// goroutine ends - offering a report never holds a connection's termination up
+	rec.Suite("undecodable-input-at-once", rec.N(12, 600), func(c *ev.Case) {
+		c.Class("undecodable-input-at-once")
+		const K = 8
+		rounds := 300
+		mux := diam.NewServeMux()
+		mux.HandleFunc("ALL", func(diam.Conn, *diam.Message) {})
+		for round := 0; round < rounds; round++ {
+			start := make(chan struct{})
+			done := make(chan bool, K)
+			conns := make([]*memnet.Conn, K)
+			for k := 0; k < K; k++ {
+				mc := memnet.NewConn()
+				conns[k] = mc
+				conn, err := diam.NewConn(mc, "peer", mux, ctx.Parser)
+				if err != nil {
+					c.Fail(ev.Sig{"op": "setup"}, nil, nil, "NewConn: %v", err)
+					return
+				}
+				ch := conn.(diam.CloseNotifier).CloseNotify()
+				go func() {
+					<-start
+					mc.Feed(badMessage(false))
+					select {
+					case <-ch:
+						done <- true
+					case <-time.After(20 * time.Second):
+						done <- false
+					}
+				}()
+			}
+			close(start)
+			ok := true
+			for k := 0; k < K; k++ {
+				if !<-done {
+					ok = false
+				}
+			}
+			for _, mc := range conns {
+				mc.FeedEOF()
+			}
+			if !ok {
+				stuck := ""
+				if gs := libGoroutines(); len(gs) > 0 {
+					stuck = topLibFrame(gs[0].Stack)
+				}
+				c.Fail(ev.Sig{"op": "not-closed-after-termination", "how": "undecodable-input-at-once"}, nil, nil, "round %d: %d connections of one ServeMux received undecodable input at the same moment (nobody reads ErrorReports): a CloseNotify channel was not closed 20 s later; a library goroutine is in %s", round, K, stuck)
+				return
+			}
+		}
+		deadline := time.Now().Add(30 * time.Second)
+		for len(libGoroutines()) != 0 {
+			if time.Now().After(deadline) {
+				gs := libGoroutines()
+				c.Fail(ev.Sig{"op": "goroutine-left", "how": "undecodable-input-at-once"}, nil, gs[0].Stack, "%d library goroutine(s) still exist 30 s after the connections were terminated, e.g. %s", len(gs), topLibFrame(gs[0].Stack))
+				return
+			}
+			time.Sleep(2 * time.Millisecond)
+		}
+		c.Event("stress_rounds", rounds)
+		c.Event("channels_checked", rounds*K)
 	})
 	// client + watchdog
 	terms := []byte{tEOF, tERR, tBAD, tBADT, tLC}
